@@ -82,7 +82,9 @@ func c05Render(t time.Time, r int) string {
 
 const c05Renderings = 9
 
-var c05Malformed = []string{"absent", "empty", "garbage", "date-only", "no-zone", "slash-date", "space-separator", "trailing-junk", "long-fraction-then-junk"}
+var c05Malformed = []string{"absent", "empty", "garbage", "date-only", "no-zone", "slash-date", "space-separator", "trailing-junk", "long-fraction-then-junk",
+	// the fixed-width shape with a field out of range: not an instant
+	"day-30-of-february", "hour-24", "month-13", "minute-60", "day-00", "second-61"}
 
 func c05MalformedValue(kind string, t time.Time) string {
 	switch kind {
@@ -100,6 +102,18 @@ func c05MalformedValue(kind string, t time.Time) string {
 		return t.UTC().Format("2006/01/02T15:04:05Z")
 	case "space-separator":
 		return t.UTC().Format("2006-01-02 15:04:05Z")
+	case "day-30-of-february":
+		return fmt.Sprintf("%04d-02-30T00:00:00Z", t.UTC().Year())
+	case "hour-24":
+		return t.UTC().Format("2006-01-02") + "T24:00:00Z"
+	case "month-13":
+		return fmt.Sprintf("%04d-13-01T00:00:00Z", t.UTC().Year())
+	case "minute-60":
+		return t.UTC().Format("2006-01-02T15") + ":60:00Z"
+	case "day-00":
+		return t.UTC().Format("2006-01") + "-00T00:00:00Z"
+	case "second-61":
+		return t.UTC().Format("2006-01-02T15:04") + ":61Z"
 	case "trailing-junk":
 		return t.UTC().Format("2006-01-02T15:04:05Z") + "junk"
 	case "long-fraction-then-junk":
